@@ -33,9 +33,14 @@ META = {
 def obligations(tier):
     t = 300 if tier == "quick" else 1500
     fn = "seq2" if tier == "quick" else "seq3"
-    obls = [CH("granular_sequences_p%02d" % p, H, fn, t, mode="E1s", functions=F, stubs=[CLOCK], env={"VERIF_PART": str(p)},
-               bounds="first op %d of add/remove/clear/set with marking %d; all 9 selectors; second op any of 4 ops x %s selectors x 4 markings%s" % (
-                   p // 4, p % 4, "5 of 9" if tier == "quick" else "9", "" if tier == "quick" else "; third op any of 4 ops x 3 selectors x 2 markings")) for p in range(16)]
+    if tier == "quick":
+        obls = [CH("granular_sequences_p%02d" % p, H, "seq2", t, mode="E1s", functions=F, stubs=[CLOCK], env={"VERIF_PART": str(p)},
+                   bounds="first op %d of add/remove/clear/set with marking %d; all 9 selectors; second op any of 4 ops x 5 of 9 selectors x 4 markings" % (p // 4, p % 4))
+                for p in range(16)]
+    else:
+        obls = [CH("granular_sequences_p%02d" % p, H, "seq3", 2400, mode="E1s", functions=F, stubs=[CLOCK], env={"VERIF_PART": str(p)},
+                   bounds="first op %d of add/remove/clear/set with marking %d on the %s-indexed of 9 selectors; second op any of 4 ops x 9 selectors x 4 markings; third op "
+                          "any of 4 ops x 3 selectors x 2 markings" % (p // 8, (p // 2) % 4, "even" if p % 2 == 0 else "odd")) for p in range(32)]
     for p in range(12):
         obls.append(CH("add_add_then_any_p%02d" % p, H, "seq_aao", t, mode="E1s", functions=F, stubs=[CLOCK], env={"VERIF_PART": str(p)},
                        bounds="add on two different selectors (pair index %% 12 == %d of 36 pairs, same or different marking of 4) then any of 4 ops on any of 9 selectors" % p))
